@@ -3,7 +3,7 @@
    (tied to the Rust serializers by the correspondence runs of C01 and of this check).
    Spec: Cddl/ConwayCddl.v (transcription of the Conway CDDL) judged by the validator of Cddl/Validator.v over the
    independent CBOR reader of Cbor/Item.v. *)
-From CSL Require Import Num.Value Cddl.NoZeroAssets.
+From CSL Require Import Num.Value Cddl.NoZeroAssets Builder.Totals Builder.Change Cddl.ChangeNoZero.
 From CSL Require Import Base.Prelude Cbor.Head Cbor.Item Cbor.ItemProofs Codec.Schema Codec.SchemaProofs
   Ledger.Schemas Ledger.SchemasProofs
   Cddl.Rules Cddl.Validator Cddl.ValidatorProofs Cddl.ConwayCddl Cddl.ToItem Cddl.ToItemProofs Cddl.CanonProofs
@@ -154,6 +154,33 @@ Proof.
   split; [exact value_checked_add_pos|]. split; [exact value_checked_sub_pos|]. split; [exact value_clamped_sub_pos|exact ma_sub_pos].
 Qed.
 Print Assumptions C03_builder_no_zero_assets.
+
+(* (5') the builder clause about add_change_if_needed ITSELF, on C05's executable model of it (Builder/Change.v: every branch,
+   serialised sizes and fees as an ARBITRARY oracle): if the outputs already in the builder and the total input carry no
+   zero-quantity asset and no empty policy bundle, then after add_change - successful or failed, the Rust code mutates
+   before it fails - no output of the builder carries one: every change output it appended, and the last output it
+   topped up, is free of them. *)
+Theorem C03_add_change_no_zero_assets : forall (O : Type) (orc : @oracle O) fuel addr extra s o,
+  outputs_pos s = true -> total_input_pos s = true ->
+  outputs_pos (out_st (add_change orc fuel addr extra s o)) = true.
+Proof. intros O orc. exact (add_change_keeps_outputs_pos orc). Qed.
+Print Assumptions C03_add_change_no_zero_assets.
+
+(* the premise on the inputs is needed: the builder does not DROP a degenerate entry it is given (known finding
+   C03-builder-echoes-degenerate-given-values).  Witness: one input holding `asset => 0`, no output, the trivial oracle
+   (fee 0, minimum ADA 0, nothing too big): add_change succeeds and appends a change output with that zero quantity. *)
+Definition triv_oracle : @oracle unit :=
+  mkOracle (fun _ o => (Ok 0, o)) (fun _ o => (Ok 0, o)) (fun _ o => (false, o)) (fun _ o => (false, o))
+           (fun _ _ o => (([], true), o)).
+Theorem C03_add_change_echo_refuted : exists s,
+  outputs_pos s = true /\ total_input_pos s = false /\
+  out_res (add_change triv_oracle 8 1 0 s tt) = Ok true /\
+  outputs_pos (out_st (add_change triv_oracle 8 1 0 s tt)) = false.
+Proof.
+  exists (set_s_inputs [(1, mkValue 10 (Some [(repeat 1 28, [([65], 0)])]))] (new_state (mkConfig 0 0 false false))).
+  vm_compute. repeat split.
+Qed.
+Print Assumptions C03_add_change_echo_refuted.
 
 (* ---- non-vacuity ---- *)
 Example C03_tables_nonempty :
